@@ -33,8 +33,17 @@ Seuil == 20
 Large == 200
 TgbPts == {-250, -220, -200, -110, -50, -20, -15, -5, 0, 5, 15, 20, 50, 110, 200, 220, 250}
 TgbBnd == TgbPts \cup {NA}
-A0(binf) == IF binf = NA THEN -Large ELSE binf       \* a = FFFF(binf) ? -large : binf
-B0(bsup) == IF bsup = NA THEN Large ELSE bsup
+(* a = FFFF(binf) ? -large : binf;  b = FFFF(bsup) ? large : bsup;                           *)
+(* if (FFFF(binf) && !FFFF(bsup)) a = MIN(a, bsup - large);                                  *)
+(* if (FFFF(bsup) && !FFFF(binf)) b = MAX(b, binf + large);                                  *)
+(* History: until /repo commit 932370950 the last two lines did not exist; the transcription *)
+(* of that code made TLC refute TgbWithin for the classes (undefined, bsup < -20): the pair  *)
+(* (-20, bsup) was inverted and the fall-back returned -20 > bsup (confirmed on the real     *)
+(* function, repaired since).  The classes stay in the catalogue: a regression is caught by  *)
+(* the replay, and TgbWithin is now an INVARIANT of the transcription.                       *)
+Max2(x, y) == IF x > y THEN x ELSE y
+A0(binf, bsup) == IF binf # NA THEN binf ELSE IF bsup # NA THEN Min2(-Large, bsup - Large) ELSE -Large
+B0(binf, bsup) == IF bsup # NA THEN bsup ELSE IF binf # NA THEN Max2(Large, binf + Large) ELSE Large
 
 (* one "if (aa < thr) { zone; aa = thr; if (aa >= bb) goto label_norme; }" block *)
 Cut(s, b, thr, type) ==
@@ -42,7 +51,7 @@ Cut(s, b, thr, type) ==
   THEN [aa |-> thr, zones |-> Append(s.zones, [lo |-> s.aa, hi |-> Min2(b, thr), t |-> type]), stop |-> (thr >= b)]
   ELSE s
 Zones(binf, bsup) ==
-  LET a == A0(binf)  b == B0(bsup)
+  LET a == A0(binf, bsup)  b == B0(binf, bsup)
       s1 == Cut([aa |-> a, zones |-> <<>>, stop |-> FALSE], b, -Seuil, 1)
       s2 == Cut(s1, b, 0, 2)
       s3 == Cut(s2, b, Seuil, 3)
@@ -75,15 +84,15 @@ TgbKind(binf, bsup) ==
 (* the zones partition [a, b] (whenever a <= b after the replacement of undefined bounds) *)
 ZonesPartition(binf, bsup) ==
   LET zs == Zones(binf, bsup)  n == Len(zs) IN
-  A0(binf) <= B0(bsup) =>
-     /\ n >= 1 /\ zs[1].lo = A0(binf) /\ zs[n].hi = B0(bsup)
+  A0(binf, bsup) <= B0(binf, bsup) =>
+     /\ n >= 1 /\ zs[1].lo = A0(binf, bsup) /\ zs[n].hi = B0(binf, bsup)
      /\ \A k \in 1..n : zs[k].lo <= zs[k].hi /\ InDomain(zs[k])
      /\ \A k \in 1..(n - 1) : zs[k].hi = zs[k + 1].lo
 (* an inverted pair gives a single zone, whose sign decides alone (no mixture of signs ever) *)
 NoMixedSigns(binf, bsup) ==
   LET zs == Zones(binf, bsup) IN
   /\ ~(1 \in ZSigns(zs) /\ -1 \in ZSigns(zs))
-  /\ A0(binf) > B0(bsup) => Len(zs) = 1
+  /\ A0(binf, bsup) > B0(binf, bsup) => Len(zs) = 1
 (* THE PROPERTY: the value lies within the bounds it was given (an undefined bound = none) *)
 TgbWithin(binf, bsup) ==
   \A iv \in ResultIntervals(Zones(binf, bsup)) : Within(iv[1], binf, bsup) /\ Within(iv[2], binf, bsup)
@@ -111,10 +120,12 @@ TgbStates == {[k |-> "tgb", binf |-> a, bsup |-> b] : a \in TgbBnd, b \in TgbBnd
 (* whose bounds coincide is a hard datum (never drawn); Update(i) draws y_i within the      *)
 (* EFFECTIVE bounds of the sweep, given the others (the others only move the distribution). *)
 (* Burn-in decay (AGibbs::_getBoundsDecay, always on from gibbs_sampler / simpgs): for      *)
-(* iter <= nburn the bounds are relaxed towards THRESH_INF/SUP = -10/+10 by ratio =         *)
-(* iter / nburn.  AS CODED, nburn = 0 gives ratio 0/0 = NaN at iter 0, and a NaN bound is   *)
-(* "undefined" for FFFF(): the first sweep is unconstrained.  Intended: no burn-in = no     *)
-(* relaxation.                                                                              *)
+(* 0 < iter <= nburn the bounds are relaxed towards THRESH_INF/SUP = -10/+10 by ratio =     *)
+(* iter / nburn; "if (_nburn <= 0 || iter > _nburn) return;" leaves them alone otherwise.   *)
+(* History: until /repo commit 65d897251 the test was "iter > _nburn" only: nburn = 0 gave  *)
+(* ratio 0/0 = NaN at iter 0, a NaN bound is "undefined" for FFFF() and the first sweep was *)
+(* unconstrained; TLC refuted InBounds on the transcription of that code (flag 'ascoded' of *)
+(* the machine, kept: ascoded = the code of /repo, now equal to the intended semantics).    *)
 Thresh == 100
 (* (three sites: a smaller alphabet keeps the exhaustive exploration within minutes) *)
 GVals == IF GN <= 2 THEN {-100, -30, -10, -5, 0, 3, 5, 10, 15, 30, 100} ELSE {-100, -10, -5, 0, 3, 10, 100}
@@ -124,7 +135,7 @@ Hard(p) == p[1] # NA /\ p[1] = p[2]
 (* v within the effective bounds of sweep 'iter' *)
 EffWithin(v, p, iter, nburn, ascoded) ==
   IF iter > nburn THEN Within(v, p[1], p[2])
-  ELSE IF nburn = 0 THEN (IF ascoded THEN TRUE ELSE Within(v, p[1], p[2]))
+  ELSE IF nburn = 0 THEN Within(v, p[1], p[2])      \* before 65d897251, as coded: TRUE (unconstrained)
   ELSE /\ (p[1] = NA \/ (v + Thresh) * nburn >= (p[1] + Thresh) * iter)
        /\ (p[2] = NA \/ (v - Thresh) * nburn <= (p[2] - Thresh) * iter)
 GibbsInit ==
@@ -288,8 +299,9 @@ Next == GibbsUpdate
 Spec == Init /\ [][Next]_st
 
 (* invariants: what must hold on the MODEL *)
-Inv_Tgb    == st.k = "tgb" => ZonesPartition(st.binf, st.bsup) /\ NoMixedSigns(st.binf, st.bsup)
-Inv_Gibbs  == st.k = "gibbs" => GibbsInBounds(st)        \* holds for the intended decay, violated as coded
+Inv_Tgb    == st.k = "tgb" => /\ ZonesPartition(st.binf, st.bsup) /\ NoMixedSigns(st.binf, st.bsup)
+                              /\ (TgbKind(st.binf, st.bsup) # "swapped" => TgbWithin(st.binf, st.bsup))
+Inv_Gibbs  == st.k = "gibbs" => GibbsInBounds(st)        \* intended decay and (since 65d897251) the decay as coded
 Inv_Cond   == (st.k = "cond" /\ st.rmap = IdMap(st.R)) => CondExact(st)
 Inv_Rule   == st.k = "rule" => RuleConsistent(st.name)
 (* every wrong rank map is observable: some field/data make the datum not reproduced *)
